@@ -12,6 +12,7 @@ import hashlib
 import json
 import os
 import shutil
+import subprocess
 import tempfile
 
 from vt import core, budget as B, rules as R
@@ -494,6 +495,60 @@ def judge_symlinked_rules_csv(rec, rnd, tmp, k, log):
     shutil.rmtree(root, ignore_errors=True)
 
 
+SAME_PROCESS = """
+import os, sys
+args = list(sys.argv)
+sys.path.insert(0, args[1])
+os.chdir(args[2])
+from tally import cli
+def run(argv):
+    sys.argv = ['tally'] + argv
+    try:
+        cli.main()
+    except SystemExit:
+        pass
+run(['up', '--format', 'summary'])
+os.chdir(args[3])
+run(args[4:])
+"""
+
+
+def judge_same_process_sequence(rec, rnd, tmp, k):
+    """Two commands in ONE process (a script that drives tally.cli.main, a test suite), the second after a change of directory: a command without a
+    config argument acts on the budget of the directory it is run from - the first budget is only read."""
+    root = os.path.join(tmp, 'sp%d' % k)
+    buds = []
+    for nm in ('a', 'b'):
+        cfg = os.path.join(root, nm, 'config')
+        os.makedirs(cfg)
+        os.makedirs(os.path.join(root, nm, 'data'))
+        with open(os.path.join(cfg, 'settings.yaml'), 'w') as f:
+            f.write('year: 2025\ndata_sources:\n  - name: Card\n    file: data/card.csv\n    format: "{date:%Y-%m-%d},{description},{amount}"\n')
+        with open(os.path.join(cfg, 'merchant_categories.csv'), 'w') as f:
+            f.write('Pattern,Merchant,Category,Subcategory\nNETFLIX,Netflix %s,Subscriptions,Streaming\n' % nm)
+        with open(os.path.join(root, nm, 'data', 'card.csv'), 'w') as f:
+            f.write('Date,Description,Amount\n2025-01-03,NETFLIX.COM,15.99\n')
+        buds.append(os.path.join(root, nm))
+    second = rnd.choice([['up', '--migrate', '-q'], ['up', '--migrate', '--format', 'summary'], ['up', '--migrate', '-q'], ['up', '-q']])
+    before = snapshot(buds[0])
+    env = dict(os.environ, PYTHONDONTWRITEBYTECODE='1', NO_COLOR='1')
+    env.pop('TALLY_CONFIG', None)
+    p = subprocess.run([core.PY, '-c', SAME_PROCESS, core.SRC, buds[0], buds[1]] + second, capture_output=True, text=True, stdin=subprocess.DEVNULL, env=env, timeout=180)
+    after = snapshot(buds[0])
+    rec.case()
+    rec.count('commands_run', 2)
+    rec.count('same_process_sequences')
+    case = {'kind': 'same-process', 'second': second, 'exit': p.returncode}
+    changed = sorted(x for x in set(before) | set(after) if before.get(x) != after.get(x) and not x.startswith('output'))
+    if changed:
+        rec.violation('command-acts-on-the-budget-of-an-earlier-command', f'`tally up --format summary` in budget a, then (same process, after chdir to budget b) `tally {" ".join(second)}`: '
+                      f'budget a changed: {changed}', case)
+    elif '--migrate' in second and p.returncode == 0 and not os.path.exists(os.path.join(buds[1], 'config', 'merchants.rules')):
+        rec.violation('requested-migration-not-done-in-the-current-budget', f'`tally up --format summary` in budget a, then (same process, after chdir to budget b) `tally {" ".join(second)}` '
+                      f'exits 0 but budget b has no merchants.rules', case)
+    shutil.rmtree(root, ignore_errors=True)
+
+
 def judge_init_sectionless_rules(rec, rnd, tmp, k, log):
     """A budget with rules in the legacy CSV AND a merchants.rules the user wrote that holds no [section] (transforms, variables, notes): `tally init` creates
     what is missing and touches neither of the two."""
@@ -543,6 +598,7 @@ def run(rec, shard, nshards, t):
             judge_init_sectionless_rules(rec, rnd, tmp, k, log)
             judge_symlinked_config_folder(rec, rnd, tmp, k, log)
             judge_symlinked_rules_csv(rec, rnd, tmp, k, log)
+            judge_same_process_sequence(rec, rnd, tmp, k)
         if shard == 0:
             rec.sample({'example_sequence': ['up', 'discover --format json', 'init', 'up --migrate -q'], 'monitors': ['sha256 tree snapshot', 'audit-hook effect log']})
     finally:
@@ -563,6 +619,7 @@ def replay(rec, case):
             judge_init_sectionless_rules(rec, rnd, tmp, k, log)
             judge_symlinked_config_folder(rec, rnd, tmp, k, log)
             judge_symlinked_rules_csv(rec, rnd, tmp, k, log)
+            judge_same_process_sequence(rec, rnd, tmp, k)
     finally:
         shutil.rmtree(tmp, ignore_errors=True)
         if os.path.exists(log):
